@@ -220,7 +220,9 @@ func (i *Iterator) autoNext(ctx context.Context) bool {
 		return false
 	}
 	if endApprox.Lower.After(i.bounds.End) {
-		return i.Next(ctx, i.view.Start.Span(i.bounds.End))
+		// A view seeked past the bounds yields a negative span; -1ns is AutoSpan and would
+		// re-enter autoNext forever.
+		return i.Next(ctx, max(i.view.Start.Span(i.bounds.End), 0))
 	}
 	i.view.End = endApprox.Lower
 	i.reset(i.view.BoundBy(i.bounds))
@@ -280,7 +282,9 @@ func (i *Iterator) autoPrev(ctx context.Context) bool {
 		return false
 	}
 	if startApprox.Lower.Before(i.bounds.Start) {
-		return i.Prev(ctx, i.bounds.Start.Span(i.view.End))
+		// A view seeked before the bounds yields a negative span; -1ns is AutoSpan and would
+		// re-enter autoPrev forever.
+		return i.Prev(ctx, max(i.bounds.Start.Span(i.view.End), 0))
 	}
 	i.view.Start = startApprox.Lower + 1
 	i.reset(i.view.BoundBy(i.bounds))
